@@ -98,3 +98,14 @@ Theorem C05_SE2_rjac_is_derivative x y th dx dy dth : th <> 0 ->
   is_derive (fun h => sin (th + h * dth)) 0 (cos th * u3).
 Proof. exact (se2_rjac_is_derivative x y th dx dy dth). Qed.
 Print Assumptions C05_SE2_rjac_is_derivative.
+
+(* SO3: rjac(t) is the right Jacobian of exp at t, generic branch, in the sense of the property: along any direction d the
+   rotation matrix of exp(t + h d) has derivative R(exp t) * hat(rjac(t) d) at h = 0, i.e. exp(t + h d) =
+   exp(t) (+) h rjac(t) d + o(h).  The statement is about the model's own exp / rjac (the generic branch holds on a
+   neighbourhood of h = 0 since eps < |t|^2 is an open condition). *)
+From Manif Require Import Jr_SO3.
+Theorem C05_SO3_rjac_is_derivative eps x y z dx dy dz i j : 0 < eps -> eps < x * x + y * y + z * z -> (i < 3)%nat -> (j < 3)%nat ->
+  is_derive (fun h => @mnth RS (so3_rotation RS (so3_exp RS eps [x + h * dx; y + h * dy; z + h * dz])) i j) 0
+    (@mnth RS (@Mat.mmul RS (so3_rotation RS (so3_exp RS eps [x; y; z])) (@skew3 RS (@mvmul RS (so3_rjac RS eps [x; y; z]) [dx; dy; dz]))) i j).
+Proof. intros H. exact (so3_rjac_is_derivative eps H x y z dx dy dz i j). Qed.
+Print Assumptions C05_SO3_rjac_is_derivative.
